@@ -178,7 +178,7 @@ def verdict_accepts(cb, prog, wnames, idxpos, proofpos):
     return acc, len(idx_terms)
 
 
-def check(run, prefix="O15"):
+def check(run, prefix="O15", compose=True):
     from . import detectors as _DN
     _DN.ob_new_fields(run, prefix + ".8", ['crypto::merkle', 'crypto::hash'], 'a tree or proof type that remembers anything between calls makes verification depend on call history')
     from . import detectors as _DC
@@ -474,3 +474,11 @@ def check(run, prefix="O15"):
         o.check(last_verdict(b, False), "check_hash_proof_last|verdict", "verdict is true only when derive_hash_root_last(..) is Some(derived) and derived == root", b.span)
     else:
         o.ok("check_hash_proof_last|verdict", "folded into check_proof_last (checked there)", "", nontrivial=False)
+
+    # "callers pass the index they act on" / "the number of slices cannot be misreported": the only consumer of the proof verdicts is the
+    # repair requester - what it records and stores must be behind check_proof_last / check_proof for the requested block and index
+    if compose:
+        from . import C14
+        want = (prefix + ".9.1", prefix + ".9.3")       # store-only-after-proof, proven slice count
+        with run.restricted(lambda oid: oid in want):
+            C14.check(run, prefix=prefix + ".9", compose=False)
